@@ -310,9 +310,9 @@ class DomainDefinition:
         point_dat = {}
         cell_dat = {}
         for key, vec in vectors.items():
-            if vec.size % self.nel == 0:
+            if any(s % self.nel == 0 for s in vec.shape):
                 cell_dat[key] = vec
-            elif vec.size % self.nnodes == 0:
+            elif any(s % self.nnodes == 0 for s in vec.shape):
                 point_dat[key] = vec
             else:
                 warnings.warn(f"Vector {key} is neither cell- nor point-data. Skipping vector...")
